@@ -343,7 +343,9 @@ class IncrementalInterpreter(Pytree):
                 outduals = [outduals]
             jax_util.safe_map(dual_env.write, _eqn.outvars, outduals)
 
-        return jax_util.safe_map(dual_env.read, jaxpr.outvars)
+        # Literal outvars (a function returning a Python / 0-d constant) read as raw values.
+        outduals = jax_util.safe_map(dual_env.read, jaxpr.outvars)
+        return [Diff(v, NoChange) if not isinstance(v, Diff) else v for v in outduals]
 
     def run_interpreter(self, _stateful_handler, fn, primals, tangents, **kwargs):
         def _inner(*args):
